@@ -394,6 +394,12 @@ func runCase(c *common.Ctx, e *common.Enum, f *family, en *entry) {
 	noisy := false
 	cut := ""
 	violated := false
+	prepSteep := false
+	// once a case has been found super-linear, its ladder ends at the first call above this many block executions
+	budget := uint64(5e7)
+	if e.Thorough() {
+		budget = 3e8
+	}
 	var pts []point // points of the main ladder (for the table)
 
 	type stage struct {
@@ -436,9 +442,12 @@ stages:
 				ok = pp.Result == "ok" && tr != nil
 				call = func() string { return en.tree(tr) }
 				if len(judge(en, st.ru, prep, nil)) > 0 {
+					prepSteep = true
+				}
+				if prepSteep && (!st.main || pp.total() > budget) {
 					// reported by the Parse case of this family; larger trees would cost ever more to build.
 					// This size is still measured (the tree exists), then the ladder ends.
-					cut = fmt.Sprintf("ladder cut at n=%d: building the tree for this family is itself super-linear (reported by the Parse case)", n)
+					cut = fmt.Sprintf("ladder cut at n=%d: building the tree for this family is itself super-linear (reported by the Parse case) and took %d block executions", n, pp.total())
 				}
 			} else {
 				call, ok = en.prepare(sql)
@@ -464,20 +473,6 @@ stages:
 			}
 			p.N, p.Bytes = n, len(sql)
 			c.Count("measurements", 1)
-			// CPU back-stop data: min of 3 where a call is long enough to be timed
-			if st.main && p.cpu >= cpuFloor*3/4 {
-				c0 := calibTime()
-				m := p.cpu
-				for k := 0; k < 2; k++ {
-					if d := timeOnly(call); d < m {
-						m = d
-					}
-				}
-				c1 := calibTime()
-				calibs = append(calibs, c0, c1)
-				p.cpuMin = m
-				p.CPUms = float64(m.Microseconds()) / 1000
-			}
 			cur = append(cur, p)
 			if st.main {
 				pts = append(pts, p)
@@ -495,7 +490,35 @@ stages:
 					c.Fail(x.sig, fmt.Sprintf("family %s, entry point %s: %s", f.name, en.name, x.msg))
 				}
 				violated = true
-				break stages
+				// The ladder goes on while a call stays cheap, so that a second, independent culprit
+				// (one that needs larger sizes to pass the floor) is reported by the same run instead
+				// of appearing only after the first one has been repaired.
+				if !st.main || p.total() > budget {
+					break stages
+				}
+				continue
+			}
+			if violated {
+				if p.total() > budget {
+					break stages
+				}
+				continue
+			}
+			// CPU back-stop (only where the deterministic measures did not object): min of 3 runs
+			// where a call is long enough to be timed
+			if st.main && p.cpu >= cpuFloor*3/4 {
+				c0 := calibTime()
+				m := p.cpu
+				for k := 0; k < 2; k++ {
+					if d := timeOnly(call); d < m {
+						m = d
+					}
+				}
+				c1 := calibTime()
+				calibs = append(calibs, c0, c1)
+				cur[len(cur)-1].cpuMin = m
+				cur[len(cur)-1].CPUms = float64(m.Microseconds()) / 1000
+				pts[len(pts)-1].cpuMin, pts[len(pts)-1].CPUms = m, cur[len(cur)-1].CPUms
 			}
 			if st.main {
 				if cpuSig, msg := judgeCPU(en, cur, calibs, &noisy, call); cpuSig != "" {
